@@ -124,6 +124,9 @@ pub struct Parsed {
 }
 
 fn need<S: Src + ?Sized>(s: &S, pos: u64, n: usize, what: &str) -> Result<Vec<u8>, String> {
+    if pos >= s.total() && n > 0 {
+        return Err(format!("{what}: position {pos} beyond the image ({})", s.total()));
+    }
     let v = s.fetch(pos, n);
     if v.len() < n {
         return Err(format!("{what}: need {n} bytes at {pos}, image has {}", s.total()));
@@ -163,7 +166,7 @@ pub fn parse_central_at<S: Src + ?Sized>(s: &S, pos: u64) -> Result<Central, Str
     let nl = le16(&h, 28) as usize;
     let el = le16(&h, 30) as usize;
     let cl = le16(&h, 32) as usize;
-    let var = need(s, pos + 46, nl + el + cl, "central header variable part")?;
+    let var = need(s, pos.saturating_add(46), nl + el + cl, "central header variable part")?;
     let mut c = Central {
         pos,
         made_by: le16(&h, 4),
@@ -218,7 +221,7 @@ pub fn parse_local_at<S: Src + ?Sized>(s: &S, pos: u64) -> Result<Local, String>
     }
     let nl = le16(&h, 26) as usize;
     let el = le16(&h, 28) as usize;
-    let var = need(s, pos + 30, nl + el, "local header variable part")?;
+    let var = need(s, pos.saturating_add(30), nl + el, "local header variable part")?;
     let mut l = Local {
         pos,
         need: le16(&h, 4),
@@ -231,7 +234,7 @@ pub fn parse_local_at<S: Src + ?Sized>(s: &S, pos: u64) -> Result<Local, String>
         usize32: le32(&h, 22),
         name: var[..nl].to_vec(),
         extra: var[nl..].to_vec(),
-        data_start: pos + 30 + (nl + el) as u64,
+        data_start: pos.saturating_add(30 + (nl + el) as u64),
         ..Default::default()
     };
     l.csize = l.csize32 as u64;
@@ -288,7 +291,7 @@ pub fn parse_with_eocd<S: Src + ?Sized>(s: &S, eocd_pos: u64) -> Result<Parsed, 
                 let mut q = hi;
                 loop {
                     if let Some(r) = try_z64_rec(s, q) {
-                        if q + 12 + r.0 == eocd_pos - 20 {
+                        if (q + 12).checked_add(r.0) == Some(eocd_pos - 20) {
                             found = Some((q, r));
                             break;
                         }
@@ -328,13 +331,13 @@ pub fn parse_with_eocd<S: Src + ?Sized>(s: &S, eocd_pos: u64) -> Result<Parsed, 
             p.cd_size = p.cd_size32 as u64;
             p.entries = p.entries16 as u64;
             p.archive_offset = eocd_pos.checked_sub(p.cd_size).and_then(|x| x.checked_sub(p.cd_off32 as u64)).ok_or("directory size+offset exceed end record position")?;
-            p.cd_start = p.cd_off32 as u64 + p.archive_offset;
+            p.cd_start = (p.cd_off32 as u64).saturating_add(p.archive_offset);
         }
     }
     let mut pos = p.cd_start;
     for i in 0..p.entries {
         let c = parse_central_at(s, pos).map_err(|e| format!("central #{i}: {e}"))?;
-        pos += c.len;
+        pos = pos.saturating_add(c.len);
         p.centrals.push(c);
     }
     for c in &p.centrals {
@@ -424,13 +427,13 @@ pub fn validate<S: Src + ?Sized>(s: &S, p: &Parsed, o: &ValidateOpts) -> Vec<Str
             if z.rec_pos != cd_end {
                 bad.push(format!("ZIP64 end record at {} is not immediately after the directory ({cd_end})", z.rec_pos));
             }
-            if z.rec_pos + 12 + z.rec_size != z.loc_pos {
+            if (z.rec_pos + 12).checked_add(z.rec_size) != Some(z.loc_pos) {
                 bad.push("ZIP64 locator does not immediately follow the ZIP64 end record".into());
             }
             if z.loc_pos + 20 != p.eocd_pos {
                 bad.push("ZIP64 locator not immediately before the end record".into());
             }
-            if z.loc_off + p.archive_offset != z.rec_pos {
+            if z.loc_off.checked_add(p.archive_offset) != Some(z.rec_pos) {
                 bad.push("ZIP64 locator offset does not point at the ZIP64 end record".into());
             }
             if z.disk != 0 || z.cd_disk != 0 || z.loc_disk != 0 || z.loc_disks != 1 {
